@@ -17,7 +17,7 @@ import (
 	"verif/internal/world"
 )
 
-var c07Variants = []string{"no-metadata", "other-release", "other-namespace", "label-only", "missing-name-annotation", "missing-namespace-annotation", "annotations-but-no-label", "wrong-label-value", "owned"}
+var c07Variants = []string{"no-metadata", "other-release", "other-namespace", "label-only", "missing-name-annotation", "missing-namespace-annotation", "annotations-but-no-label", "wrong-label-value", "other-release-keep-policy", "label-only-keep-policy", "owned"}
 
 // c07Preexisting builds a pre-existing object for resource r in ownership variant v.
 func c07Preexisting(r world.Res, v string) map[string]interface{} {
@@ -33,6 +33,14 @@ func c07Preexisting(r world.Res, v string) map[string]interface{} {
 	case "other-namespace":
 		lb["app.kubernetes.io/managed-by"] = "Helm"
 		an["meta.helm.sh/release-name"], an["meta.helm.sh/release-namespace"] = "r", "other"
+	case "other-release-keep-policy":
+		// a resource another (live) release marked "keep": kept is not orphaned
+		lb["app.kubernetes.io/managed-by"] = "Helm"
+		an["meta.helm.sh/release-name"], an["meta.helm.sh/release-namespace"] = "other", "default"
+		an["helm.sh/resource-policy"] = "keep"
+	case "label-only-keep-policy":
+		lb["app.kubernetes.io/managed-by"] = "Helm"
+		an["helm.sh/resource-policy"] = "keep"
 	case "label-only":
 		lb["app.kubernetes.io/managed-by"] = "Helm"
 	case "missing-name-annotation":
@@ -341,6 +349,8 @@ func c07Prop(t *rapid.T) {
 		case "install":
 			op.Replace = len(w.History()) > 0
 			op.TakeOwnership = rapid.IntRange(0, 3).Draw(t, "takeOwnership") == 0
+			// --create-namespace: one more object Helm may create - but not before it has decided to go ahead
+			op.CreateNS = rapid.IntRange(0, 2).Draw(t, "createNamespace") == 0
 		case "upgrade":
 			op.TakeOwnership = rapid.IntRange(0, 3).Draw(t, "takeOwnership") == 0
 			op.CleanupOnFail = rapid.Bool().Draw(t, "cleanup")
@@ -431,7 +441,7 @@ func c07Prop(t *rapid.T) {
 }
 
 func TestC07(t *testing.T) {
-	evid.Extra("rule", "C07: rapid-generated histories (1..4 operations quick, 1..7 thorough) of install / upgrade / install --replace / rollback / uninstall, with and without take-ownership, some failing half-way through an injected fault; before every operation 0-3 objects are placed in the cluster for pool resources that do not exist yet, in one of nine ownership variants (no metadata, owned by another release name, right name but other namespace annotation, label only, one annotation missing, annotations without label, wrong label value, correctly owned). Conflict is decided independently of Helm: some resource of the new manifest exists live and does not carry managed-by=Helm plus both meta.helm.sh annotations of this release. Conflict without take-ownership => error, no mutating request in the log, cluster and stored history byte-identical; otherwise after success every manifest resource carries the ownership metadata; every DELETE in any operation targets an object named by a manifest or hook of this release. Non-trivial = an operation whose manifest names at least one harness-placed pre-existing object; distinct by the full step sequence.")
+	evid.Extra("rule", "C07: rapid-generated histories (1..4 operations quick, 1..7 thorough) of install / upgrade / install --replace / rollback / uninstall, with and without take-ownership, some failing half-way through an injected fault, some with the ownership check's own read of a foreign object rejected (403/500); resources and placed objects may name a namespace of their own (same kind and name elsewhere is a different object); before every operation 0-3 objects are placed in the cluster for pool resources that do not exist yet, in one of nine ownership variants (no metadata, owned by another release name, right name but other namespace annotation, label only, one annotation missing, annotations without label, wrong label value, correctly owned). Conflict is decided independently of Helm: some resource of the new manifest exists live and does not carry managed-by=Helm plus both meta.helm.sh annotations of this release. Conflict without take-ownership => error, no mutating request in the log, cluster and stored history byte-identical; otherwise after success every manifest resource carries the ownership metadata; every DELETE in any operation targets an object named by a manifest or hook of this release. Non-trivial = an operation whose manifest names at least one harness-placed pre-existing object; distinct by the full step sequence.")
 	evid.Extra("assumptions", []string{"charts have no crds/ directory (CRDs are installed before the ownership check by documented design)", c01Assumptions[0]})
 	rapid.Check(t, c07Prop)
 }
